@@ -151,6 +151,8 @@ func runC04(c *Ctx) {
 	}
 	jsonTextAsData(c, "R5")
 	c.shared("R7", "C14/R4", "what -o writes is the root selected last: every selector's result becomes a root (a null result included)", keyHas("selector-root-unconditional", "root-list"), func(s *Ctx) { rootsPerValue(s, "R4") })
+	stringIndexArm(c, "R8")
+	c.shared("R9", "C09/R3", "a program that does not assign to the document leaves it as read: a copied null is a plain null (it does not keep the link to the object it was read from, through which a later assignment to the copy would create a member in the document)", keyHas("copy ValueNil", "copy-on-insert"), c09R3)
 	c.note("R6 encoder-output-unmodified: GetRootJson returns exactly string(json.MarshalIndent(ToGoValue(root), \"\", \"  \")) and json(v) exactly that of its argument: no text is produced or rewritten outside encoding/json (a hand-written fast path or a post-processing of the encoder's text is where escaping goes wrong).")
 	c.checkArm("R6", "GetRootJson", p.LangFunc("(*Evaluator).GetRootJson"), armSpec{
 		Results: []string{`string(encoding/json.MarshalIndent((*lang.Value).ToGoValue(&e.root.Value)#0, "", "  ")#0)`},
